@@ -14,12 +14,12 @@ func init() {
 		explanation: "Static clauses of 'callbacks fire exactly once per execution, paired, for the right node': " +
 			"(pairing-node) in the wrapper returned by runWithCallbacks the start hook dominates the wrapped call and every return passes exactly one of end/error on the matching arm; " +
 			"(pairing-graph) runner.run's deferred literal fires start iff it has not fired and exactly one of error/end; each explicit start sets the flag; " +
-			"(handler-isolation) no in-place append on the handler slice shared through the context; " +
+			"(handler-isolation) no in-place append on the handler slice shared through the context nor on the Option.handler slice of the caller; (stream-copy-isolation) a handler closing its copy (even twice) cannot close the stream flowing through the graph; " +
 			"(inject-iff-not-self) every enableCallback argument is false or the negation of the executor's own callbacks-enabled flag; " +
 			"(stream-copies) len(handlers)+1 copies, handler i gets copy i, the flow keeps the last, zero handlers copy nothing; " +
 			"(tool-runinfo) both tool-call runners derive run info from the task and set the tool-call id; " +
 			"(designation) graph-level handlers are options without path, node handlers have a one-element path equal to the node key.",
-		decided:    []string{"pairing-node", "pairing-graph", "handler-isolation", "inject-iff-not-self", "stream-copies", "tool-runinfo", "designation"},
+		decided:    []string{"pairing-node", "pairing-graph", "handler-isolation", "stream-copy-isolation", "inject-iff-not-self", "stream-copies", "tool-runinfo", "designation"},
 		notDecided: []string{"payload contents", "per-handler timing filter semantics", "behaviour of user handlers"},
 		run:        runC10,
 	})
@@ -240,7 +240,7 @@ func runC10(w *World, r *Report) {
 
 	// ---- handler isolation
 	r.Rule("C10.handler-isolation", "no in-place append on callbacks.manager handler slices (shared through the context by all nodes of a run)", 0)
-	owners := map[*types.Named]bool{w.Named("internal/callbacks", "manager"): true}
+	owners := map[*types.Named]bool{w.Named("internal/callbacks", "manager"): true, w.Named("compose", "Option"): true}
 	ruleAppendAlias(w, r, "C10.handler-isolation", owners, w.RepoFuncs("internal/callbacks", "callbacks", "compose"), map[*ssa.Function]bool{})
 	// manager.handlers is written only while constructing a manager
 	hf := w.Field("internal/callbacks", "manager", "handlers")
@@ -251,6 +251,10 @@ func runC10(w *World, r *Report) {
 			}
 		}
 	}
+
+	// ---- stream-copy-isolation: closing / double-closing a handler copy cannot close the stream of the flow
+	r.Rule("C10.stream-copy-isolation", "stream copies handed to handlers: shared cells under sync.Once, idempotent per-child close, source closed by the last child only", 6)
+	copyCellChecks(w, r, "C10.stream-copy-isolation")
 
 	// ---- inject-iff-not-self
 	r.Rule("C10.inject-iff-not-self", "enableCallback argument = false | !<callbacks-enabled flag> | forwarded parameter", 8)
